@@ -76,24 +76,32 @@ impl Drop for NestingGuard {
 
 const ATOM_CACHE_SIZE: usize = 256;
 
+/// The receiving side of the distribution atom cache.
+///
+/// Entries live in slots addressed by a segment index (0..=7) and an internal index
+/// (0..=255). `insert`/`get` address segment 0. The cache also remembers the atoms the most
+/// recently read distribution header referred to, in header order: that is what an
+/// `ATOM_CACHE_REF` inside the terms of that message points into.
 #[derive(Debug, Clone)]
 pub struct AtomCache {
-    atoms: HashMap<u8, Atom>,
+    atoms: HashMap<u16, Atom>,
+    header_refs: Vec<Atom>,
 }
 
 impl AtomCache {
     pub fn new() -> Self {
         Self {
             atoms: HashMap::with_capacity(ATOM_CACHE_SIZE),
+            header_refs: Vec::new(),
         }
     }
 
     pub fn insert(&mut self, index: u8, atom: Atom) {
-        self.atoms.insert(index, atom);
+        self.atoms.insert(index as u16, atom);
     }
 
     pub fn get(&self, index: u8) -> Option<&Atom> {
-        self.atoms.get(&index)
+        self.atoms.get(&(index as u16))
     }
 
     pub fn len(&self) -> usize {
@@ -102,6 +110,20 @@ impl AtomCache {
 
     pub fn is_empty(&self) -> bool {
         self.atoms.is_empty()
+    }
+
+    fn slot(segment_index: u8, internal_segment_index: u8) -> u16 {
+        ((segment_index & 0x07) as u16) << 8 | internal_segment_index as u16
+    }
+
+    /// The atom an `ATOM_CACHE_REF` denotes: the reference at that position of the current
+    /// distribution header. Without a header (entries inserted by hand) it is slot `index`.
+    fn resolve(&self, index: u8) -> Option<&Atom> {
+        if self.header_refs.is_empty() {
+            self.get(index)
+        } else {
+            self.header_refs.get(index as usize)
+        }
     }
 }
 
@@ -270,6 +292,7 @@ fn parse_versioned_term_with_cache<'a>(
     if tag == DIST_HEADER {
         parse_dist_header_with_cache(input, cache)
     } else {
+        cache.header_refs.clear();
         parse_term_from_tag(input, tag, cache)
     }
 }
@@ -322,7 +345,7 @@ fn parse_term_from_tag<'a>(
         LOCAL_EXT => parse_local_ext(input, cache),
         ATOM_CACHE_REF => {
             let (input, cache_index) = be_u8(input)?;
-            if let Some(atom) = cache.get(cache_index) {
+            if let Some(atom) = cache.resolve(cache_index) {
                 log::debug!(
                     "Found ATOM_CACHE_REF index {} -> '{}'",
                     cache_index,
@@ -563,6 +586,7 @@ fn parse_dist_header_with_cache<'a>(
 ) -> NomResult<'a, OwnedTerm> {
     let (input, num_atom_cache_refs) = be_u8(input)?;
 
+    cache.header_refs.clear();
     if num_atom_cache_refs == 0 {
         return parse_term(input, cache);
     }
@@ -590,6 +614,7 @@ fn parse_dist_header_with_cache<'a>(
         };
 
         let is_new_entry = (flag_nibble & 0x08) != 0;
+        let slot = AtomCache::slot(flag_nibble & 0x07, internal_segment_index);
 
         if is_new_entry {
             let (new_input, atom_len) = if long_atoms {
@@ -610,8 +635,25 @@ fn parse_dist_header_with_cache<'a>(
                 atom_str,
                 internal_segment_index
             );
-            cache.insert(internal_segment_index, Atom::new(atom_str));
+            cache.atoms.insert(slot, Atom::new(atom_str));
             input = new_input;
+        }
+
+        // reference `i` of this header: a new entry, or one cached by an earlier message
+        match cache.atoms.get(&slot) {
+            Some(atom) => {
+                let atom = atom.clone();
+                cache.header_refs.push(atom);
+            }
+            None => {
+                log::error!(
+                    "distribution header refers to empty atom cache slot {} (segment {}, index {})",
+                    slot,
+                    flag_nibble & 0x07,
+                    internal_segment_index
+                );
+                return Err(nom::Err::Failure(NomError::new(input, ErrorKind::Tag)));
+            }
         }
     }
 
